@@ -153,7 +153,7 @@ inline Sol gen(vf::Rng& r, bool nonfinite, int maxline = 700) {
     f.name = names[r.below(7)] + std::string(i ? std::to_string(i) : "");
     if (r.chance(1, 3)) { int tl = r.range(1, 3); for (int t = 0; t < tl; ++t) { if (t) f.table += "\n"; f.table += std::to_string(t) + "\tbas" + std::to_string(t) + "\tsome text"; } }
     int nmax = cls == 0 ? s.nvars : cls == 1 ? s.ncons : cls == 2 ? 3 : 1;
-    for (int j = 0; j < nmax; ++j) if (r.chance(1, 2)) f.vals.push_back({j, fl ? vf::hostile_double(r, nonfinite && r.chance(1, 6)) : (double)r.range(-5, 9)});
+    for (int j = 0; j < nmax; ++j) if (r.chance(1, 2)) f.vals.push_back({j, fl ? vf::hostile_double(r, nonfinite && r.chance(1, 6)) : r.chance(1, 8) ? (double)(r.chance(1, 2) ? 2147483647 - (int)r.below(2) : -2147483647 - 1 + (int)r.below(2)) : (double)r.range(-5, 9)});   // int suffix values incl. INT_MAX, INT_MIN
     s.sufs.push_back(f);
   }
   return s;
